@@ -408,7 +408,7 @@ zix_path_lexically_normal(ZixAllocator* const allocator, const char* const path)
 
   // Remove trailing dot-dot entry
   if (r >= 3U && result[r - 3] == '.' && result[r - 2] == '.' &&
-      is_any_sep(result[r - 1])) {
+      is_any_sep(result[r - 1]) && (r == 3U || is_any_sep(result[r - 4]))) {
     result[r - 1] = '\0';
   }
 
